@@ -1105,9 +1105,12 @@ class PendingClassDef(_PendingCompoundStmt[ClassDef]):
     def get_result(self) -> list[expr]:
         return_list: list[expr] = []
 
-        def _header_tmp(_expr: expr) -> Name:
+        def _header_tmp(_expr: expr) -> expr:
             # the expressions of the class header run in source order
             # (decorators, bases, keywords), before the class is created
+            if isinstance(_expr, Starred):
+                # class C(*bases): keep the star outside of the temporary
+                return Starred(value=_header_tmp(_expr.value), ctx=Load())
             tmp = Name(id=ol_name(OL_CLASS_HEADER_TMP))
             return_list.append(
                 NamedExpr(target=tmp, value=expr_transf(self.nsp, _expr))
